@@ -229,6 +229,71 @@ func runC09(c *Ctx) {
 	}
 }
 
+// runC09Commands: sources of two commands that share stored patterns, the second laid out differently
+// from the first (a name left over from the previous command must not be called at a stale address)
+func runC09Commands(c *Ctx) {
+	if !c.Level("two commands sharing definitions") {
+		return
+	}
+	cmds := append(append([]string{}, c13Cmds...), "replace all ('d' = v) p with 'y' v", "replace all q ('a' = v) with v", "find all 'z' p", "find all {'b' maybe s} = s p", "replace all ('x' = v) q with 'y'")
+	txts := append(texts("abd", 4), "xx", "xa", "da", "dab", "zab")
+	for i, c1 := range cmds {
+		for j, c2 := range cmds {
+			if i == j && strings.HasPrefix(c1, "set ") {
+				continue
+			}
+			src := c13Defs + c1 + "\n" + c2
+			if !c.Unit(func() string { return c1 + " ; " + c2 }) {
+				continue
+			}
+			crashUnit(c, src, txts)
+		}
+	}
+}
+
+// runC09LargeFiles: searches that move far forward and then jump back (a long attempt that fails and
+// restarts one byte later, a back-reference to text read long ago) on files larger than the reader's window
+func runC09LargeFiles(c *Ctx) {
+	if !c.Level("files:larger than the read window") {
+		return
+	}
+	dir, err := os.MkdirTemp("", "vmc-c09-")
+	if err != nil {
+		return
+	}
+	defer os.RemoveAll(dir)
+	rep := strings.Repeat
+	progs := []string{"find all 'a' at least 0 'b' fewest 'c'", "find all 'b' 'b' 'b' 'c'", "find all line start 'b' 'c'",
+		"replace all 'a' with 'x'", "find all whole file", "find last 1 'b'", "find all word start any", "find all 'a' (at least 0 any fewest) = m 'a' m", "find all not in 'b', 'a' any",
+		"find all file start 'abc'", "find all line start 'abc'", "find all whole line", "find all file end", "find all 'b' file end"}
+	for _, size := range []int{2049, 4096, 4097, 6001, 8193, 12289} {
+		contents := map[string]string{
+			"ab": "a" + rep("b", size-1), "ba": rep("b", size-1) + "a", "aba": "a" + rep("b", size-2) + "a", "lines": rep("abcdefghi\n", size/10+1)[:size],
+			"abab": rep("ab", size/2+1)[:size], "bcend": rep("b", size-2) + "bc",
+		}
+		for name, content := range contents {
+			path := filepath.Join(dir, fmt.Sprintf("%s%d", name, size))
+			os.WriteFile(path, []byte(content), 0o644)
+			for _, src := range progs {
+				src, name, size := src, name, size
+				if !c.Unit(func() string { return fmt.Sprintf("%s on the %d-byte file %q", src, size, name) }) {
+					continue
+				}
+				v, err, pi := compileSafe(src)
+				if err != nil || pi != nil {
+					continue
+				}
+				c.Eval(1)
+				c.Nontrivial(1)
+				if pi := guard(func() { v.RunFiles([]string{path}, engine.NOTHING, false) }); pi != nil {
+					c.Violation("RUNFILES-PANIC large "+pi.Site, fmt.Sprintf("RunFiles(%q) on a %d-byte file (%s) panics: %s", src, size, name, pi.Msg),
+						map[string]any{"kind": "files", "src": src, "size": size, "content": name})
+				}
+			}
+		}
+	}
+}
+
 func relNames(t []string, dir string) []string {
 	var out []string
 	for _, x := range t {
@@ -287,6 +352,8 @@ func runC09Shadow(c *Ctx) {
 
 // process code whose variable types depend on the branch taken
 func runC09Process(c *Ctx) {
+	runC09Commands(c)
+	runC09LargeFiles(c)
 	runC09Shadow(c)
 	if !c.Level("process:branch-dependent types") {
 		return
